@@ -108,17 +108,29 @@ type SpecDB struct {
 	Consts  map[string]string
 	GhostVars map[string]string // name -> type
 	GlobalInvs []*AxiomSpec
+	Guarded    map[string]string // "pkg.Type.field" -> mutex field
+	Access     []*AccessSpec
+}
+
+// AccessSpec: the complete list of functions allowed to read / write a field (frame scan), or to write package-level state.
+type AccessSpec struct {
+	Kind  string // readers writers globalwriters
+	Field string // pkg.Type.field
+	Funcs []string
+	Tags  []string
+	File  string
+	Line  int
 }
 
 func NewSpecDB() *SpecDB {
 	return &SpecDB{Funcs: map[string]*FuncSpec{}, Preds: map[string]*PredSpec{}, Tables: map[string]*TableSpec{},
-		SpecFns: map[string]*SpecFn{}, Ghosts: map[string][]GhostField{}, Consts: map[string]string{}, GhostVars: map[string]string{}}
+		SpecFns: map[string]*SpecFn{}, Ghosts: map[string][]GhostField{}, Consts: map[string]string{}, GhostVars: map[string]string{}, Guarded: map[string]string{}}
 }
 
 var clauseKW = map[string]bool{"requires": true, "ensures": true, "ghostensures": true, "modifies": true, "decreases": true, "loop": true,
 	"inline": true, "trusted": true, "pure": true, "tag": true, "noframe": true, "opaque": true, "unclaimed": true, "let": true}
 var topKW = map[string]bool{"func": true, "functype": true, "extern": true, "pred": true, "table": true, "specfn": true,
-	"axiom": true, "lemma": true, "ghostfield": true, "iface": true, "const": true, "ghostvar": true, "globalinv": true}
+	"axiom": true, "lemma": true, "ghostfield": true, "iface": true, "const": true, "ghostvar": true, "globalinv": true, "guardedby": true, "readers": true, "writers": true, "globalwriters": true}
 
 type rawLine struct {
 	text string
@@ -398,6 +410,37 @@ func (db *SpecDB) LoadFile(path string, pkg string) error {
 				return fail("const syntax")
 			}
 			db.Consts[strings.TrimSpace(kv[0])] = strings.TrimSpace(kv[1])
+			cur = nil
+		case "readers", "writers", "globalwriters":
+			tags, body := splitTags(rest)
+			field, list := "", body
+			if kw != "globalwriters" {
+				field, list = splitColon(body)
+				if strings.Count(field, ".") == 1 {
+					field = pkg + "." + field
+				}
+			} else {
+				list = strings.TrimPrefix(strings.TrimSpace(body), ":")
+			}
+			as := &AccessSpec{Kind: kw, Field: field, Tags: tags, File: it.file, Line: it.line}
+			for _, f := range strings.Split(list, ",") {
+				if f = strings.TrimSpace(f); f != "" {
+					as.Funcs = append(as.Funcs, qualifyKey(f, pkg))
+				}
+			}
+			db.Access = append(db.Access, as)
+			cur = nil
+		case "guardedby":
+			// guardedby Tags.data mx
+			f := strings.Fields(rest)
+			if len(f) != 2 || !strings.Contains(f[0], ".") {
+				return fail("guardedby syntax: guardedby Type.field mutexfield")
+			}
+			tn := f[0]
+			if strings.Count(tn, ".") == 1 {
+				tn = pkg + "." + tn
+			}
+			db.Guarded[tn] = f[1]
 			cur = nil
 		case "globalinv":
 			name, body := splitColon(rest)
